@@ -17,6 +17,8 @@ def sh(cmd, cwd=None, env=None, timeout=3600):
 
 def suite(wt, pkg=None):
     cmd = "cargo test --no-fail-fast --offline " + ("-p %s" % pkg if pkg else "--workspace")
+    if pkg == "texcraft-stdext":
+        cmd += " --features color"   # the crate does not build on its own without it
     rc, out = sh(cmd + " 2>&1", cwd=wt)
     passed = sum(int(m) for m in re.findall(r"test result: \w+\. (\d+) passed", out))
     failed = sum(int(m) for m in re.findall(r"test result: \w+\. \d+ passed; (\d+) failed", out))
